@@ -8,8 +8,8 @@ Whole-stream view: the sequence of `read` buffer sizes is abstracted away here. 
 namespace LzmaVerif.Lzma2
 open LzmaVerif Lzma Prog Rc
 
-/-- `get_dict_size` of `lzma2_reader.rs` (after the clamp to `DICT_SIZE_MAX`) -/
-def dictBufOf (dict : Nat) : Nat := ((min dict Consts.DICT_SIZE_MAX + 15) / 16) * 16
+/-- `get_dict_size` of `lzma2_reader.rs` (clamped into `DICT_SIZE_MIN ..= DICT_SIZE_MAX`, rounded up to 16) -/
+def dictBufOf (dict : Nat) : Nat := ((max (min dict Consts.DICT_SIZE_MAX) Consts.DICT_SIZE_MIN + 15) / 16) * 16
 
 /-- one decoded chunk, as much as the writer model needs to reproduce it -/
 structure Chunk where
